@@ -42,6 +42,7 @@ import glob as _real_glob
 import importlib
 import os
 import sys
+import time
 
 import simkit
 from simkit import SimProcessExit, HarnessError
@@ -53,6 +54,7 @@ from simkit import rng as rngmod
 from simkit import zk as zkmod
 
 import kazoo.exceptions as kexc
+import kazoo.retry as kretry
 
 from treadmill import context
 from treadmill import dirwatch
@@ -83,6 +85,24 @@ TERMINAL = ('finished', 'aborted', 'killed')
 SETTLE_ROUNDS = 8
 NESTABLE = ('svc', 'deliver', 'expire', 'delete', 'create', 'kill', 'restart',
             'place', 'ep_exit', 'ep_crash', 'ep_reap')
+
+
+_REAL_RETRY = kretry.KazooRetry
+
+
+class _DetRetry(_REAL_RETRY):
+    """The real KazooRetry; it binds the real time.sleep as a default
+    argument at import time - sleep on the virtual clock instead."""
+
+    def __init__(self, *args, **kwargs):
+        kwargs.setdefault('sleep_func', lambda s: time.sleep(s))
+        _REAL_RETRY.__init__(self, *args, **kwargs)
+
+
+class _NoJitter:
+    @staticmethod
+    def uniform(_lo, _hi):
+        return 1.0
 
 
 def _sys_exit(code):
@@ -296,6 +316,7 @@ class World:
             'handler_preempted': 0, 'preempted_by_other_hosts_handler': 0,
         }
         self.faults = {'session_expired': 0, 'expire_mid_handler': 0,
+                       'reply_lost_applied': 0, 'reply_lost_not_applied': 0,
                        'svc_killed': 0, 'kill_node': 0, 'placement_moved': 0,
                        'rt_session_closed': 0}
         self.unexpected = {'error_replies': 0, 'svc_died_unhandled': 0}
@@ -316,6 +337,8 @@ class World:
         patches.set(_base_service, 'tempfile', fsseam.CountingTempfile())
         patches.set(_base_service, 'plugin_manager', _plugins())
         patches.set(sysinfo, 'hostname', lambda: self.cur_host)
+        patches.set(kretry, 'KazooRetry', _DetRetry)
+        patches.set(kretry, 'random', _NoJitter)
         self.clock.on_sleep = self.on_sleep
 
     def _setup(self):
@@ -381,6 +404,17 @@ class World:
                     continue
                 sub = {k: v for k, v in sub.items()
                        if k not in ('during', 'mid', 'sleeps')}
+                if sub.get('op') == 'conn_loss':
+                    # the reply of this process' next mutating call is lost
+                    # (ConnectionLoss), the call applied or not
+                    host = self.hosts[hostname]
+                    if host.proc is not None:
+                        client = host.proc.client
+                        client.fault_plan = {
+                            'at': client.nwrites + 1, 'kind': 'conn_loss',
+                            'applied': bool(sub.get('applied'))}
+                        self.log.ev('during', hostname, at, sub)
+                    continue
                 if sub.get('op') == 'expire':
                     self.faults['expire_mid_handler'] += 1
                 self.log.ev('during', hostname, at, sub)
@@ -407,7 +441,15 @@ class World:
         self.frames.append({'host': host.name, 'calls': 0, 'points': points})
 
     def _disarm(self):
-        self.frames.pop()
+        frame = self.frames.pop()
+        host = self.hosts.get(frame['host'])
+        proc = host.proc if host is not None else None
+        if proc is not None:
+            proc.client.fault_plan = None     # faults do not outlive the op
+            while proc.client.fired:
+                plan = proc.client.fired.pop()
+                self.faults['reply_lost_applied' if plan.get('applied')
+                            else 'reply_lost_not_applied'] += 1
 
     def _busy(self, hostname):
         """A handler of this host's service is on the call stack (it is
@@ -1130,7 +1172,7 @@ OP_WEIGHTS = [
     ('kill_node', 2), ('ep_register', 2), ('ep_exit', 1), ('handover', 3),
     ('restart_same_host', 2), ('ep_crash', 1), ('ep_reap', 1),
     ('rt_restart_same_host', 2), ('fence_old_host', 3),
-    ('call_level_race', 3),
+    ('call_level_race', 3), ('delete_reply_lost', 3),
 ]
 
 
@@ -1202,7 +1244,7 @@ class Generator:
             subs = []
             for _ in range(fault.choice([1, 1, 2])):
                 kind = fault.choice(['svc', 'svc', 'deliver', 'expire',
-                                     'delete', 'svc'])
+                                     'delete', 'svc', 'conn_loss'])
                 if kind == 'svc' and others:
                     subs.append({'op': 'svc', 'host': fault.choice(others),
                                  'n': fault.choice([1, 1, 5])})
@@ -1212,6 +1254,9 @@ class Generator:
                 elif kind == 'expire':
                     subs.append({'op': 'expire', 'host': fault.choice(
                         self.config['hosts'])})
+                elif kind == 'conn_loss':
+                    subs.append({'op': 'conn_loss',
+                                 'applied': fault.random() < 0.6})
                 elif kind == 'delete' and self.seq:
                     subs.append({'op': 'delete',
                                  'seq': fault.randint(1, self.seq)})
@@ -1467,6 +1512,38 @@ class Generator:
                             'during': during})
         return order[0]
 
+    def g_delete_reply_lost(self, world):
+        """While a host cleans an old container up, the reply of one of its
+        deletes is lost (applied or not); before its next ZooKeeper call the
+        host that waits for that node is woken and handles its request."""
+        olds = [c for c in world.conts.values()
+                if c.kind == 'svc' and c.present and world._valid(c) and
+                world.hosts[c.host].proc is not None and
+                not world._dir_pending(world.hosts[c.host].proc)]
+        if not olds:
+            return None
+        old = self.rng.choice(olds)
+        others = [n for n, h in sorted(world.hosts.items())
+                  if n != old.host and h.proc is not None and
+                  not world._dir_pending(h.proc)]
+        if not others:
+            return None
+        new_host = self.rng.choice(others)
+        # _safe_delete per path: get, get_children, delete
+        at = 3 * self.rng.choice([1, 1, 1, 2, 3])
+        if self.rng.random() < 0.2:
+            at -= 1
+        wake = [{'op': 'deliver', 'host': new_host, 'n': 9},
+                {'op': 'svc', 'host': new_host, 'n': 5}]
+        during = [[at, [{'op': 'conn_loss',
+                         'applied': self.rng.random() < 0.75}]],
+                  [at + 1, wake]]
+        self.follow.extend([
+            {'op': 'svc', 'host': new_host, 'n': 5},
+            {'op': 'delete', 'seq': old.seq},
+            {'op': 'svc', 'host': old.host, 'n': 5, 'during': during}])
+        return self._request(world, old.inst, host=new_host)
+
     def g_restart_same_host(self, world):
         """The instance restarts on the same host: the new container
         registers before the old one is cleaned up."""
@@ -1562,6 +1639,11 @@ class PresenceSim(enginemod.Engine):
         'DirWatcher objects of dead simulated processes are reused (watch '
         'removed, kernel queue drained) instead of closed',
         'utils.sys_exit raises SimProcessExit (process death)',
+        'kazoo.retry.KazooRetry runs un-stubbed but sleeps on the virtual '
+        'clock, jitter fixed to 1.0',
+        'lost replies: the next mutating call of a pre-empted handler raises '
+        'ConnectionLoss, applied or not applied (simkit.zk fault_plan), as a '
+        'nested {"op": "conn_loss"} at a pre-emption point',
         'scheduling granularity: before any ZooKeeper call of a service '
         'handler the op may let other hosts\' services run whole handlers, '
         'expire sessions, delete requests ("during": [[k, ops]]); a pre-empted '
